@@ -13,7 +13,7 @@ use super::rng::Rng;
 // Profiles: which workload / fault mix a run uses (swarm configuration)
 // ---------------------------------------------------------------------------
 
-pub const PROFILES: [&str; 17] = [
+pub const PROFILES: [&str; 18] = [
     "plain",      // fault-free payments, 1-3 hashes
     "faults",     // crashes, write faults, reorder, delayed replies, bad pay outcomes
     "crashy",     // many crashes around the pay call
@@ -31,6 +31,7 @@ pub const PROFILES: [&str; 17] = [
     "e2watch",    // E2: BlockWatcher
     "e2wait-hostile",
     "e2pay-hostile",
+    "flood",
 ];
 
 pub fn profile_cfg(profile: &str, content: &mut Rng) -> RunCfg {
@@ -42,6 +43,10 @@ pub fn profile_cfg(profile: &str, content: &mut Rng) -> RunCfg {
     ) {
         c.f_yield = *content.pick(&[0u32, 0, 0, 100, 400]);
         c.f_multi = *content.pick(&[0u32, 0, 150, 300]);
+    }
+    c.pay_placeholder = content.chance(2, 3);
+    if matches!(profile, "inputs" | "wire" | "faults") {
+        c.f_notify_drop = 250;
     }
     match profile {
         "plain" => {
@@ -202,6 +207,19 @@ pub fn profile_cfg(profile: &str, content: &mut Rng) -> RunCfg {
             c.f_rpc_delay = 300;
             c.log = false;
         }
+        "flood" => {
+            // Many HTLCs held at once (more than any small constant).
+            c.n_hashes = 2 + content.below(2) as usize;
+            c.max_sets = 12;
+            c.max_parts = 8;
+            c.f_underfund = 700;
+            c.f_batch = 500;
+            c.f_nontrampoline = 120;
+            c.mpp_timeout = 600;
+            c.max_ops = 160;
+            c.log = false;
+            c.f_yield = 0;
+        }
         "sweepbase" => {
             // Fault-free base scenarios for the systematic sweep (DESIGN.md 4.7).
             c.n_hashes = 1;
@@ -264,6 +282,31 @@ fn config_profile(c: &mut RunCfg, content: &mut Rng) {
     c.mpp_timeout = mpp.max(0) as u64;
     c.payment_timeout = pto.max(0) as u64;
     c.raw_opts = Some(o);
+    if content.chance(1, 8) {
+        // A value lightningd could legally forward but that is no i64: the
+        // plugin must refuse to start (it may do so by aborting).
+        let name = *content.pick(&[
+            "trampoline-cltv-delta",
+            "trampoline-policy-cltv-delta",
+            "trampoline-policy-fee-base",
+            "trampoline-policy-fee-per-satoshi",
+            "trampoline-mpp-timeout",
+            "trampoline-payment-timeout",
+        ]);
+        let val = *content.pick(&[
+            "\"1000msat\"",
+            "\"90s\"",
+            "\" 60\"",
+            "\"60\"",
+            "90.5",
+            "9223372036854775808",
+            "18446744073709551615",
+            "\"\"",
+        ]);
+        let mut m = std::collections::BTreeMap::new();
+        m.insert(name.to_string(), val.to_string());
+        c.raw_json_opts = Some(m);
+    }
     c.n_hashes = 1;
     c.max_sets = 3;
     c.max_parts = 1;
@@ -276,6 +319,9 @@ fn config_profile(c: &mut RunCfg, content: &mut Rng) {
 /// Reference validator for C19: must the plugin refuse to start?
 pub fn config_must_refuse(c: &RunCfg) -> Option<bool> {
     let o = c.raw_opts.as_ref()?;
+    if c.raw_json_opts.as_ref().map(|m| !m.is_empty()).unwrap_or(false) {
+        return Some(true);
+    }
     let g = |k: &str| o.get(k).copied().unwrap_or(0);
     let cd = g("trampoline-cltv-delta");
     let pd = g("trampoline-policy-cltv-delta");
@@ -376,19 +422,20 @@ impl RandomSched {
             }
             Method::Listdatastore | Method::Listsendpays => {
                 if self.rng.permille(c.f_rpc_read_fault) {
-                    return if self.rng.chance(1, 2) {
-                        RpcFault::Transport
-                    } else {
-                        RpcFault::Code(-1)
+                    return match self.rng.below(3) {
+                        0 => RpcFault::Transport,
+                        1 => RpcFault::Code(0),
+                        _ => RpcFault::Code(-1),
                     };
                 }
             }
             Method::Waitsendpay => {
                 if self.rng.permille(c.f_hostile_waitsendpay) {
-                    return match self.rng.below(4) {
+                    return match self.rng.below(5) {
                         0 => RpcFault::Code(-1),
                         1 => RpcFault::Code(200),
                         2 => RpcFault::Code(12345),
+                        3 => RpcFault::Code(0),
                         _ => RpcFault::Transport,
                     };
                 }
@@ -470,7 +517,7 @@ impl RandomSched {
         }
         if c.f_outage > 0 {
             if node.outage {
-                if self.rng.chance(1, 4) {
+                if self.rng.chance(1, if c.f_outage >= 6 { 14 } else { 4 }) {
                     return Some(Op::Outage { on: false });
                 }
             } else if self.rng.permille(c.f_outage) {
@@ -740,9 +787,10 @@ impl RandomSched {
         {
             let k = *self.rng.pick(&[1u32, 1, 1, 2, 6, 144]);
             let notify = if self.rng.permille(c.f_notify_drop) {
-                match self.rng.below(3) {
+                match self.rng.below(4) {
                     0 => NotifyMode::Drop,
                     1 => NotifyMode::Dup,
+                    2 => NotifyMode::Malformed(self.rng.below(5) as u8),
                     _ => NotifyMode::Stale(node.height.saturating_sub(self.rng.below(5) as u32)),
                 }
             } else {
@@ -770,12 +818,24 @@ impl RandomSched {
             self.sets_offered += 1;
         }
         // Several things become runnable in the same step.
-        let batchable = |o: &Op| matches!(o, Op::Apply { .. } | Op::Reply { .. } | Op::Deliver { .. });
+        let batchable = |o: &Op| {
+            matches!(
+                o,
+                Op::Apply { .. }
+                    | Op::Reply { .. }
+                    | Op::Deliver { .. }
+                    | Op::Block {
+                        notify: NotifyMode::Deliver,
+                        ..
+                    }
+            )
+        };
         if c.f_multi > 0 && batchable(&op) && self.rng.permille(c.f_multi) {
             let key = |o: &Op| -> (u8, u8, u8) {
                 match o {
                     Op::Apply { rpc, .. } => (1, rpc.method as u8, rpc.hash),
                     Op::Reply { rpc } => (2, rpc.method as u8, rpc.hash),
+                    Op::Block { .. } => (4, 0, 0),
                     _ => (3, 0, 0),
                 }
             };
